@@ -442,6 +442,80 @@ func (r *rw) node(root ast.Node) ast.Node {
 				_ = lab
 				fail("labeled select not handled: %s", r.pos(n))
 			}
+			// A select that finds several of its cases ready picks one of them at random inside the Go runtime -
+			// the one decision of a run the simulator would not own. With two or more communication cases the
+			// select is therefore preceded by one non-blocking attempt per case, in source order: whichever case is
+			// ready first in that order is taken; only when none is ready the original select blocks (and is then
+			// completed by exactly one event). The clause bodies exist twice in the generated code.
+			var comms []*ast.CommClause
+			var deflt *ast.CommClause
+			for _, cl := range n.Body.List {
+				cc := cl.(*ast.CommClause)
+				if cc.Comm == nil {
+					deflt = cc
+				} else {
+					comms = append(comms, cc)
+				}
+			}
+			if len(comms) >= 2 {
+				for _, cc := range comms {
+					ast.Inspect(&ast.BlockStmt{List: cc.Body}, func(x ast.Node) bool {
+						if _, isLab := x.(*ast.LabeledStmt); isLab {
+							fail("label inside a select clause (the clause body is duplicated): %s", r.pos(n))
+						}
+						return true
+					})
+				}
+				tokCounter++
+				done := ast.NewIdent(fmt.Sprintf("simdone%d", tokCounter))
+				list := []ast.Stmt{before,
+					&ast.AssignStmt{Lhs: []ast.Expr{done}, Tok: token.DEFINE, Rhs: []ast.Expr{ast.NewIdent("false")}}}
+				for _, cc := range comms {
+					body := append([]ast.Stmt{&ast.AssignStmt{Lhs: []ast.Expr{done}, Tok: token.ASSIGN, Rhs: []ast.Expr{ast.NewIdent("true")}}}, cc.Body...)
+					poll := &ast.SelectStmt{Body: &ast.BlockStmt{List: []ast.Stmt{
+						&ast.CommClause{Comm: cc.Comm, Body: body},
+						&ast.CommClause{Comm: nil, Body: nil},
+					}}}
+					list = append(list, &ast.IfStmt{Cond: &ast.UnaryExpr{Op: token.NOT, X: done}, Body: &ast.BlockStmt{List: []ast.Stmt{poll}}})
+				}
+				var rest ast.Stmt = n
+				if deflt != nil {
+					// none of the cases was ready: the default clause (its AfterBlock is already at its head)
+					rest = &ast.BlockStmt{List: deflt.Body}
+				}
+				list = append(list, &ast.IfStmt{Cond: &ast.UnaryExpr{Op: token.NOT, X: done}, Body: &ast.BlockStmt{List: []ast.Stmt{rest}}})
+				// a select whose clauses all end in return / panic is a terminating statement (a function may end with
+				// it); the chain of attempts is not one for the compiler, so it gets an unreachable panic at its end
+				terminating := true
+				for _, cl := range n.Body.List {
+					body := cl.(*ast.CommClause).Body
+					if len(body) == 0 {
+						terminating = false
+						break
+					}
+					switch last := body[len(body)-1].(type) {
+					case *ast.ReturnStmt:
+					case *ast.ExprStmt:
+						ce, ok := last.X.(*ast.CallExpr)
+						id, isID := ast.Expr(nil), false
+						if ok {
+							id = ce.Fun
+							_, isID = id.(*ast.Ident)
+						}
+						if !ok || !isID || id.(*ast.Ident).Name != "panic" {
+							terminating = false
+						}
+					default:
+						terminating = false
+					}
+				}
+				if terminating {
+					list = append(list, &ast.ExprStmt{X: &ast.CallExpr{Fun: ast.NewIdent("panic"), Args: []ast.Expr{&ast.BasicLit{Kind: token.STRING, Value: `"simrt: unreachable (select)"`}}}})
+				}
+				r.stats["SelectPolled"]++
+				c.Replace(&ast.BlockStmt{List: list})
+				return false
+			}
 			c.Replace(&ast.BlockStmt{List: []ast.Stmt{before, n}})
 			return false
 		case *ast.SendStmt:
